@@ -341,11 +341,28 @@ func (t *TableEngine) bindConst(n ast.Node, st *tstate) {
 			}
 		}
 	}
+	// lhs = <named constant>: the subject's enum value is known afterwards
+	bindEnum := func(l, r ast.Expr) {
+		if _, isNamed := t.p.TypeOf(r).(*types.Named); !isNamed {
+			return
+		}
+		if _, ok := t.p.ConstVal(r); !ok {
+			return
+		}
+		c := t.p.constName(r)
+		if c == "" {
+			return
+		}
+		key := t.p.Canon(l)
+		st.env.enums[key] = &enumVal{eq: c, neq: map[string]bool{}}
+		st.env.atoms[key] = &TAtom{Kind: "enum", Key: key, X: l, deps: t.p.MentionsOf(l)}
+	}
 	switch x := n.(type) {
 	case *ast.AssignStmt:
 		if len(x.Lhs) == len(x.Rhs) && (x.Tok == token.ASSIGN || x.Tok == token.DEFINE) {
 			for i := range x.Lhs {
 				bind(x.Lhs[i], x.Rhs[i])
+				bindEnum(x.Lhs[i], x.Rhs[i])
 			}
 		}
 	case *ast.ValueSpec:
@@ -812,6 +829,66 @@ func dedupStrings(in []string) []string {
 			seen[s] = true
 			out = append(out, s)
 		}
+	}
+	return out
+}
+
+// SemPath is a path with its decisions mapped to semantic names.
+type SemPath struct {
+	Vals         map[string]string // name -> value (bool: true|false, ord: mask, enum: ==C | !=C); repeated decisions get name#2, name#3
+	Events       []string
+	Results      []string
+	End          string
+	EndPos       string
+	Unclassified []string
+}
+
+func (sp *SemPath) Has(ev string) bool {
+	for _, e := range sp.Events {
+		if e == ev {
+			return true
+		}
+	}
+	return false
+}
+
+func (sp *SemPath) String() string {
+	var ks []string
+	for k, v := range sp.Vals {
+		ks = append(ks, k+"="+v)
+	}
+	sort.Strings(ks)
+	return "{" + strings.Join(ks, " ") + "} => [" + strings.Join(sp.Events, ",") + "] " + sp.End + "(" + strings.Join(sp.Results, ",") + ")"
+}
+
+// Semantic classifies every decision of every path.
+func (t *TableEngine) Semantic(classify func(a *TAtom) (string, bool)) []*SemPath {
+	var out []*SemPath
+	for _, pa := range t.Paths {
+		sp := &SemPath{Vals: map[string]string{}, Events: pa.Events, Results: pa.Results, End: pa.End, EndPos: pa.EndPos}
+		for _, d := range pa.Hist {
+			n, fl := classify(d.Atom)
+			if n == "" {
+				sp.Unclassified = append(sp.Unclassified, d.Atom.Key+"="+d.Val)
+				continue
+			}
+			if n == "-" {
+				continue
+			}
+			v := d.Val
+			if d.Atom.Kind == "ord" && fl {
+				v = flipMask(v)
+			}
+			k := n
+			for i := 2; ; i++ {
+				if _, dup := sp.Vals[k]; !dup {
+					break
+				}
+				k = fmt.Sprintf("%s#%d", n, i)
+			}
+			sp.Vals[k] = v
+		}
+		out = append(out, sp)
 	}
 	return out
 }
